@@ -88,6 +88,15 @@ func c06Inputs() []c06Input {
 	for _, a := range [][]string{{"balance", "--color=false", "-v", "CHF", "--months", "--diff"}, {"balance", "--color=false", "-v", "CHF"}} {
 		in = append(in, c06Input{Name: "float-ties-" + strings.Join(a[3:], "_"), Files: map[string]string{"j.knut": floatTies}, Args: append(append([]string(nil), a...), "j.knut")})
 	}
+	// portfolio weights of two commodities that are equal in total over three dates but
+	// distributed differently (0.1, 0.2, 0.3 against 0.3, 0.2, 0.1)
+	crossed := opens + jr.RenderAll([]jr.Dir{
+		jr.P("2020-01-01", "USD", "1", "CHF"), jr.P("2020-01-01", "EUR", "1", "CHF"), jr.P("2020-01-01", "AAPL", "1", "CHF"),
+		jr.T("2020-01-31", "d1", jr.B(accOpening, accCash, "1", "USD"), jr.B(accOpening, accCash, "3", "EUR"), jr.B(accOpening, accCash, "6", "AAPL")),
+		jr.T("2020-02-29", "d2", jr.B(accOpening, accCash, "1", "USD"), jr.B(accCash, accOpening, "1", "EUR")),
+		jr.T("2020-03-31", "d3", jr.B(accOpening, accCash, "1", "USD"), jr.B(accCash, accOpening, "1", "EUR")),
+	})
+	in = append(in, c06Input{Name: "weights-crossed", Files: map[string]string{"j.knut": crossed}, Args: []string{"portfolio", "weights", "-v", "CHF", "--color=false", "--months", "j.knut"}})
 	// infer with two equally likely candidates
 	training := "2020-01-01 open Assets:A\n2020-01-02 \"shop\"\nAssets:A Expenses:Food 10 CHF\n\n2020-01-03 \"shop\"\nAssets:A Expenses:Rent 10 CHF\n\n"
 	target := "2020-02-01 \"shop\"\nAssets:A Expenses:TBD 10 CHF\n\n2020-02-02 \"other\"\nExpenses:TBD Assets:A 5 CHF\n\n"
@@ -237,7 +246,7 @@ func c06Replay(e *core.Env, data json.RawMessage) (bool, string) {
 func init() {
 	core.Register(&core.Check{
 		ID: "C06", Level: "model_checking", Run: c06Run, Replay: c06Replay,
-		QuickBudget: 100 * time.Second, ThoroughBudget: 14 * time.Minute,
+		QuickBudget: 140 * time.Second, ThoroughBudget: 14 * time.Minute,
 		Rule: "tie-rich inputs (equal-weight sibling accounts valued and unvalued, direct+indirect and two indirect price paths, same-day opens/prices/assertions/closes in three files, equally likely infer candidates, a revolut2 statement with three currencies on one day) x commands (balance text/csv/-a/-v/-m, portfolio weights, check --write, transcode, print, infer, import); " +
 			"for each input every execution within the deviation bounds over goroutine schedules AND map iteration orders (explorer-owned) is run, plus two global map-order policies; oracle: exactly one (stdout, exit) outcome; the real binary is also run repeatedly; non-trivial = inputs with more than one execution",
 		Assumptions: []string{"map orders inside third-party packages are not explored", "CPU count and timing are covered through the interleavings they induce (sequential consistency)"},
